@@ -98,6 +98,10 @@ class UMNDirHandler(DirHandler):
         capfilename = self.selectorbase + "/.cap/" + file
 
         try:
+            if not self.vfs.isfile(capfilename):
+                # No capfile -- or something we can't read as one (opening
+                # a FIFO would block forever).
+                raise IOError("no capfile")
             capinfo = self.processLinkFile(capfilename, fileentry.getselector())
             if len(capinfo) >= 1:  # We handle one and only one entry.
                 if capinfo[0].gettype() == "X" or capinfo[0].gettype() == "-":
